@@ -291,6 +291,42 @@ def gen_writer(tier, rng):
     return out
 
 
+def REFUSE(n=1):
+    return dict(op='refuse', n=n)
+
+
+def gen_refused(tier, rng):
+    """the shared transport refuses one write (a transient error; it stays up): the envelope is lost, that
+    connection's writer is gone - nothing else happens, in particular not to a later incarnation of the key
+    (the write was held in the transport while the key was cancelled and used again) or to other keys"""
+    out = []
+    for later in ('same key', 'other key', 'none'):
+        for nextra in (0, 2):
+            for when in ('held', 'direct'):
+                steps = [IN('a', 't1'), LR('a'), IN('b', 't2'), LR('b')]
+                if when == 'held':
+                    steps += [STUCK(True), LW('a', 'w1', 1), Q]
+                    if later == 'same key':
+                        steps += [CANCEL('a'), IN('a', 't3'), LR('a', 2), Q]
+                    elif later == 'other key':
+                        steps += [CANCEL('b'), IN('b', 't3'), LR('b', 2), Q]
+                    steps += [REFUSE(), Q, STUCK(False), Q]
+                else:
+                    if later == 'same key':
+                        continue
+                    steps += [REFUSE(), LW('a', 'w1', 1), Q]
+                inc_a = 2 if (when == 'held' and later == 'same key') else 1
+                inc_b = 2 if (when == 'held' and later == 'other key') else 1
+                # traffic afterwards: everything read for the keys arrives on their current connections, no further
+                # announcement; writes on connections whose writer is alive reach the transport
+                for i in range(nextra):
+                    steps += [IN('a', 'x%d' % i), IN('b', 'y%d' % i)]
+                steps += [LR('a', inc_a) for _ in range(nextra)] + [LR('b', inc_b) for _ in range(nextra)]
+                steps += [LW('b', 'u1', inc_b)] + ([LW('a', 'u2', inc_a)] if inc_a == 2 else []) + [Q]
+                out.append(_scen('raw/refused write (%s), then %s reused, %d more each' % (when, later, nextra), 'raw', steps))
+    return out
+
+
 # -------------------------------------------------------------------- rpc ----
 
 def _workload(ncli, shape, rng):
@@ -380,6 +416,7 @@ def generate(tier, rng):
     out += gen_stop(tier, rng)
     out += gen_stop_traffic(tier, rng)
     out += gen_writer(tier, rng)
+    out += gen_refused(tier, rng)
     out += gen_rpc(tier, rng)
     if tier != 'thorough' and len(out) > 340:
         # keep the hand-written corner cases (they carry no pos=) and sample the rest evenly
